@@ -52,10 +52,10 @@ def encode : Err → Enc
       if known then .leaf m (detOf P e [] (.status c m nd)) [] []
       else .leaf (text e) (detOf P e [] .none) [] []
     | _ => .leaf (text e) (detOf P e (layerDetails P vf e) .none) [] []
-  | .barrier id smsg masked =>
-    let e := Err.barrier id smsg masked
+  | .barrier id m masked =>
+    let e := Err.barrier id m masked
     if P.knows (typeKey P e) then
-      .leaf smsg (detOf P e (layerDetails P vf e) .none) [encode masked] []
+      .leaf m.smsg (detOf P e (layerDetails P vf e) .none) [encode masked] []
     else
       .leaf (text e) (detOf P e (layerDetails P vf e) .none) [] []
   | .wrap id k c =>
@@ -67,9 +67,9 @@ def encode : Err → Enc
     match k with
     | .opaqueWrapper pref d mt hid => .wrap pref d mt hid (encode c)
     | .withPrefix p =>
-      if known then .wrap (text e) (detOf P e (layerDetails P vf e) (.str p)) mtPrefix [] (encode c) else generic
+      if known then .wrap (stripMarkers p) (detOf P e (layerDetails P vf e) (.str p)) mtPrefix [] (encode c) else generic
     | .withNewMessage m =>
-      if known then .wrap (text e) (detOf P e (layerDetails P vf e) (.str m)) mtPrefix [] (encode c) else generic
+      if known then .wrap (text e) (detOf P e (layerDetails P vf e) (.str m)) mtFull [] (encode c) else generic
     | .withHint h =>
       if known then .wrap [] (detOf P e [] (.str h)) mtPrefix [] (encode c) else generic
     | .withDetail h =>
@@ -103,8 +103,7 @@ def encode : Err → Enc
     match k with
     | .opaqueLeafCauses msg d hid => .leaf msg d hid (encodeList cs)
     | .join =>
-      if P.knows (typeKey P e) then .leaf [] (detOf P e [] .none) [] (encodeList cs)
-      else .leaf (text e) (detOf P e [] .none) [] (encodeList cs)
+      .leaf (text e) (detOf P e [] .none) [] (encodeList cs)
     | _ => .leaf (text e) (detOf P e (layerDetails P vf e) .none) [] (encodeList cs)
 def encodeList : List Err → List Enc
   | [] => []
@@ -215,7 +214,8 @@ def buildLeaf (path : List Nat) (msg : Str) (d : Det) (hid : List Enc)
     match hid, d.pay with
     | [], .testErr => some (.leaf path .testErr)
     | _, _ => opq
-  if !P.knows key then payloadErr else
+  -- a process that does not know the type cannot unmarshal a payload of that type either
+  if !P.knows key then opq else
   match classify key with
   | .errorString => some (.leaf path (.errorString msg))
   | .deadline => some (.leaf path .deadline)
@@ -233,11 +233,11 @@ def buildLeaf (path : List Nat) (msg : Str) (d : Det) (hid : List Enc)
     some (.leaf path (.unimplemented msg (d.rep.getD 0 []) (d.rep.getD 1 [])))
   | .barrier =>
     (match hid with
-    | _ :: _ => hd.map (fun m => .barrier path msg m)
+    | _ :: _ => hd.map (fun m => .barrier path ⟨msg, if d.rep = [] then none else some d.rep⟩ m)
     | [] => opq)             -- payload is not an EncodedError: nil, opaque fallback
   | .barrierPrev =>
     (match hid with
-    | _ :: _ => hd.map (fun m => .barrier path (redactSprintPlain msg) m)
+    | _ :: _ => hd.map (fun m => .barrier path ⟨redactSprintPlain msg, none⟩ m)
     | [] => opq)
   | .join =>
     (match cs with
